@@ -26,7 +26,7 @@ VARIABLES
   \* ---- memory (lost by Crash / Exit) ----
   up,     \* the process is alive (a store object exists)
   head,   \* dataStore.newHead
-  chk,    \* [Chunks -> [wHead, size, rewriting, wbuf]]   dataChunk
+  chk,    \* [Chunks -> [wHead, size, rewriting, rewritten, wbuf]]   dataChunk
   tree,   \* [HashIds -> Slot]                            HTree leaf slots
   hm,     \* hintMgr: [splits, maxChunk, maxDumped, state]
   ctab,   \* CollisionTable.Items: key -> [c, off, ver, vh]
@@ -70,7 +70,7 @@ Mut(m)    == m \in conf.mut      \* specification mutants: old behaviour of repa
 -----------------------------------------------------------------------------
 (* Initial state: an empty home directory opened by a fresh process.       *)
 
-FreshChunk == [wHead |-> 0, size |-> 0, rewriting |-> FALSE, wbuf |-> <<>>]
+FreshChunk == [wHead |-> 0, size |-> 0, rewriting |-> FALSE, rewritten |-> FALSE, wbuf |-> <<>>]
 FreshSplit == [items |-> <<>>, maxoff |-> 0, isfile |-> FALSE]
 FreshHm    == [splits |-> [c \in Chunks |-> <<FreshSplit>>], lastTS |-> [c \in Chunks |-> FALSE],
                maxChunk |-> 0, maxDumped |-> NoId, gcing |-> FALSE]
@@ -346,7 +346,8 @@ TreeSetStep(p, nextpc) ==
   LET l == loc[p] IN
   /\ tree' = [tree EXCEPT ![HashOf(l.k)] = [c |-> l.c, off |-> l.off, ver |-> l.ver, vh |-> l.vh]]
   /\ ref' = [ref EXCEPT ![l.k] = DocWrite(ref[l.k], l)]
-  /\ gh' = [gh EXCEPT !.treeOnly = @ \ {l.k}]
+  /\ gh' = [gh EXCEPT !.treeOnly = @ \ {l.k},
+                      !.kf = [x \in DOMAIN @ \ {l.k} |-> @[x]]]      \* a fresh write ends a known-finding episode of the key
   /\ SetPc(p, nextpc)
 
 W_TreeSet(p) ==
@@ -690,7 +691,7 @@ Dst0(begin) ==
        ELSE IF i < begin - 1 THEN i + 1 ELSE begin
 
 \* dataChunk.beginGCWriting(src) on chunk d: returns the new chunk record
-BeginGCW(d, src) == IF d = src THEN [chk[d] EXCEPT !.rewriting = TRUE, !.wHead = 0]
+BeginGCW(d, src) == IF d = src THEN [chk[d] EXCEPT !.rewriting = TRUE, !.rewritten = FALSE, !.wHead = 0]
                     ELSE [chk[d] EXCEPT !.wHead = chk[d].size]
 
 \* lay the blocks of rid over file f at block offset o (overwrite or extend)
@@ -701,12 +702,14 @@ Overlay(f, o, rid) ==
                        ELSE IF i <= Len(f) THEN f[i] ELSE [rid |-> 0, i |-> 0]]
 
 \* dataChunk.endGCWriting on chunk d: truncate a rewritten file to what was written   (FS)
+\* Repaired (finding F20): only once the old content has been read to its end (rewritten); a pass cancelled
+\* before that used to cut off every record it had not reached yet (mutant "F20" = the old code).
 EndGCW(ck, d, dd) ==
-  IF ck[dd].rewriting /\ ck[dd].wHead < ck[dd].size
-    THEN [chk |-> [ck EXCEPT ![dd].size = ck[dd].wHead, ![dd].rewriting = FALSE],
+  IF ck[dd].rewriting /\ (ck[dd].rewritten \/ Mut("F20")) /\ ck[dd].wHead < ck[dd].size
+    THEN [chk |-> [ck EXCEPT ![dd].size = ck[dd].wHead, ![dd].rewriting = FALSE, ![dd].rewritten = FALSE],
           disk |-> IF ck[dd].wHead = 0 THEN [d EXCEPT !.exists[dd] = FALSE, !.data[dd] = <<>>]
                    ELSE [d EXCEPT !.data[dd] = SubSeq(@, 1, ck[dd].wHead)]]
-    ELSE [chk |-> [ck EXCEPT ![dd].rewriting = FALSE], disk |-> d]
+    ELSE [chk |-> [ck EXCEPT ![dd].rewriting = FALSE, ![dd].rewritten = FALSE], disk |-> d]
 
 GCUnch == UNCHANGED <<conf, up, head, lock, recs, ref, gh>>
 
@@ -780,7 +783,7 @@ G_Next ==
   /\ pc["gc"] = "g_next"
   /\ LET f == IF disk.exists[gc.src] THEN disk.data[gc.src] ELSE <<>>
          n == ScanNext(f, gc.cur)
-     IN IF n[1] = 0 THEN SetPc("gc", "g_srcend") /\ gc' = gc
+     IN IF n[1] = 0 THEN SetPc("gc", "g_srcend") /\ gc' = gc /\ gh' = gh
         ELSE LET rid == n[1] off == n[2] r == recs[rid]
                  sl == tree[HashOf(r.key)]
                  found == sl # NoSlot
@@ -788,15 +791,24 @@ G_Next ==
                  cg == CollGC(r.key)
                  keep == IF found
                            THEN same \/ (cg.coll /\ (~cg.has \/ (cg.c = gc.src /\ cg.off = off)))
-                           ELSE gc.begin > 0 /\ r.ver < 0
+                           \* repaired (finding F21): a key served from the collision table although its group has no
+                           \* tree slot (F8a aftermath) keeps the record the table points at; mutant "F21" = the old code
+                           ELSE (gc.begin > 0 /\ r.ver < 0) \/ (~Mut("F21") /\ cg.has /\ cg.c = gc.src /\ cg.off = off)
                  vh == IF same THEN sl.vh ELSE IF found /\ cg.coll /\ cg.has THEN cg.vh
-                       ELSE IF found THEN (IF r.ver > 0 THEN r.vh ELSE 0) ELSE 0
+                       ELSE IF found THEN (IF r.ver > 0 THEN r.vh ELSE 0)
+                       ELSE IF ~(gc.begin > 0 /\ r.ver < 0) /\ ~Mut("F21") /\ cg.has /\ cg.c = gc.src /\ cg.off = off THEN cg.vh
+                       ELSE 0
                  fits == r.nblk + chk[gc.dst].wHead <= conf.fileMax
              IN /\ gc' = [gc EXCEPT !.cur = n[3], !.rid = rid, !.oldpos = <<gc.src, off>>, !.found = found,
                                     !.keep = keep, !.meta = [c |-> -1, off |-> 0, ver |-> r.ver, vh |-> vh],
                                     !.released = IF keep THEN @ ELSE @ + 1]
                 /\ SetPc("gc", IF ~keep THEN "g_next" ELSE IF fits THEN "g_copy" ELSE "g_dstswitch")
-  /\ UNCHANGED <<chk, tree, hm, ctab, bk, loc, disk>> /\ GCUnch
+                \* known finding F18, marked where it happens: the CURRENT live record of a key is dropped because another
+                \* key with the same hash owns the tree slot and the collision is not known to the table / hint buffers
+                /\ gh' = IF ~keep /\ found /\ ~same /\ ~cg.coll /\ Colliding(r.key) /\ r.ver > 0
+                            /\ rid = MaxOf({i \in 1..Len(recs) : recs[i].key = r.key}, 0)
+                          THEN [gh EXCEPT !.kf = Put(@, r.key, "F18")] ELSE gh
+  /\ UNCHANGED <<chk, tree, hm, ctab, bk, loc, disk>> /\ UNCHANGED <<conf, up, head, lock, recs, ref>>
 
 \* the destination is full: endGCWriting, trydump(dst, true), dst++, beginGCWriting(src)     (FS)
 G_DstSwitch ==
@@ -804,7 +816,7 @@ G_DstSwitch ==
   /\ LET e == EndGCW(chk, disk, gc.dst)
          td == TryDump(hm, e.disk, gc.dst, TRUE)
          d2 == gc.dst + 1
-         ck2 == [e.chk EXCEPT ![d2] = IF d2 = gc.src THEN [e.chk[d2] EXCEPT !.rewriting = TRUE, !.wHead = 0]
+         ck2 == [e.chk EXCEPT ![d2] = IF d2 = gc.src THEN [e.chk[d2] EXCEPT !.rewriting = TRUE, !.rewritten = FALSE, !.wHead = 0]
                                        ELSE [e.chk[d2] EXCEPT !.wHead = e.chk[d2].size]]
      IN /\ d2 \in Chunks
         /\ chk' = ck2 /\ hm' = td.h
@@ -865,7 +877,8 @@ G_SrcEnd ==
   /\ LET s == gc.src
          clear == s # gc.dst
          newgc == IF s + 1 >= bk.nextgc THEN s + 1 ELSE bk.nextgc
-     IN /\ chk' = IF clear THEN [chk EXCEPT ![s] = FreshChunk] ELSE chk
+     IN /\ chk' = IF clear THEN [chk EXCEPT ![s] = FreshChunk]
+                ELSE IF chk[s].rewriting THEN [chk EXCEPT ![s].rewritten = TRUE] ELSE chk
         \* repaired (finding F6): a file that has just been rewritten in place loses its stale tail NOW
         \* (truncateRewritten), not at the end of the pass; mutant "F6" = the old code
         /\ disk' = [IF clear THEN [disk EXCEPT !.exists[s] = FALSE, !.data[s] = <<>>]
@@ -989,7 +1002,7 @@ Recover(d) ==
       d3 == IF dumpnow THEN [a2.d EXCEPT !.treef = {[id |-> tid, slots |-> a2.t]}] ELSE a2.d
   IN [head |-> maxdata + 1,
       chk |-> [c \in Chunks |-> IF d.exists[c]
-                 THEN [wHead |-> Len(d.data[c]), size |-> Len(d.data[c]), rewriting |-> FALSE, wbuf |-> <<>>]
+                 THEN [wHead |-> Len(d.data[c]), size |-> Len(d.data[c]), rewriting |-> FALSE, rewritten |-> FALSE, wbuf |-> <<>>]
                  ELSE FreshChunk],
       tree |-> a2.t, hm |-> a2.h, disk |-> d3,
       ctab |-> IF d.hasctab THEN d.ctabf ELSE <<>>,
@@ -1083,7 +1096,11 @@ Open ==
                                                 ~AllowedAfterKill(k, ReadRecovered(r, k))),
                          !.c07bad = @ \/ (gh.crashed /\ gh.gcAt /\ \E k \in Keys : ~Colliding(k) /\
                                                 ~(Mut("KF6") /\ gc.begin = 0 /\ gh.refAt[k].ver <= 0 /\ ReadRecovered(r, k).res = "hit") /\
-                                                ~Agrees(k, ReadRecovered(r, k), gh.refAt[k], 2))]
+                                                \* exact for a key whose current record was durable when the kill fell; a write still
+                                                \* buffered then (the pass itself flushes it: G_FPick) is governed by C06
+                                                (IF gh.durAt[k] = MaxOf({i \in 1..gh.nrecsAt : recs[i].key = k}, 0)
+                                                   THEN ~Agrees(k, ReadRecovered(r, k), gh.refAt[k], 2)
+                                                   ELSE ~AllowedAfterKill(k, ReadRecovered(r, k))))]
   /\ UNCHANGED <<conf, gc, lock, pc, loc, recs>>
 
 \* between Exit and Open the environment may delete index files: they are caches (C02)
